@@ -195,6 +195,69 @@ Lemma create_ignore_never : forall fixed path target,
     create_allowed fixed SLIgnore path target = false.
 Proof. reflexivity. Qed.
 
+(* creation of entry trees: exactly the links that pass the rule at their own
+   path are created, a problem is recorded for every other one *)
+Lemma created_links_filter : forall fixed mode t path,
+    created_links fixed mode path t
+    = filter (fun pt => create_allowed fixed mode (fst pt) (snd pt)) (links_of path t).
+Proof.
+  intros fixed mode. fix IH 1. intros [tg|cs] path.
+  - cbn [created_links links_of filter fst snd].
+    destruct (create_allowed fixed mode path tg); reflexivity.
+  - cbn [created_links links_of].
+    induction cs as [|[n c] r IHr]; [reflexivity|].
+    rewrite filter_app. rewrite IH. f_equal. exact IHr.
+Qed.
+
+Lemma link_problems_filter : forall fixed mode t path,
+    link_problems fixed mode path t
+    = map fst (filter (fun pt => negb (create_allowed fixed mode (fst pt) (snd pt))) (links_of path t)).
+Proof.
+  intros fixed mode. fix IH 1. intros [tg|cs] path.
+  - cbn [link_problems links_of filter fst snd].
+    destruct (create_allowed fixed mode path tg); reflexivity.
+  - cbn [link_problems links_of].
+    induction cs as [|[n c] r IHr]; [reflexivity|].
+    rewrite filter_app, map_app. rewrite IH. f_equal. exact IHr.
+Qed.
+
+Lemma created_tree_links : forall path t p tg,
+    In (p, tg) (created_links true SLPortable path t) ->
+    In (p, tg) (links_of path t)
+    /\ normalize_portable true p tg = inr tg
+    /\ forall q, is_prefix q (split_on c_slash tg) -> 0 <= resolve_depth (path_depth p) q.
+Proof.
+  intros path t p tg H. rewrite created_links_filter in H.
+  apply filter_In in H as [H1 H2]. cbn [fst snd] in H2.
+  pose proof (create_allowed_portable true p tg H2) as N.
+  split; [exact H1|]. split; [exact N|].
+  apply (proj2 (normalize_fixed_inside p tg tg N)).
+Qed.
+
+Lemma tree_link_created_or_problem : forall fixed mode path t p tg,
+    In (p, tg) (links_of path t) ->
+    In (p, tg) (created_links fixed mode path t) \/ In p (link_problems fixed mode path t).
+Proof.
+  intros fixed mode path t p tg H. rewrite created_links_filter, link_problems_filter.
+  destruct (create_allowed fixed mode p tg) eqn:E.
+  - left. apply filter_In. split; [exact H | exact E].
+  - right. apply in_map_iff. exists (p, tg). split; [reflexivity|].
+    apply filter_In. split; [exact H|]. cbn [fst snd]. rewrite E. reflexivity.
+Qed.
+
+(* a directory, one and two levels deep, holding an escaping link: nothing is
+   created, a problem is recorded for the link's own path *)
+Lemma tree_example :
+  created_links true SLPortable (B "d")
+    (CDir [(B "ok", CLink (B "../x")); (B "bad", CLink (B "../../secret"));
+           (B "s", CDir [(B "deep", CLink (B "../../y")); (B "abs", CLink (B "/etc/passwd"))])])
+  = [(B "d/ok", B "../x"); (B "d/s/deep", B "../../y")]
+  /\ link_problems true SLPortable (B "d")
+       (CDir [(B "ok", CLink (B "../x")); (B "bad", CLink (B "../../secret"));
+              (B "s", CDir [(B "deep", CLink (B "../../y")); (B "abs", CLink (B "/etc/passwd"))])])
+     = [B "d/bad"; B "d/s/abs"].
+Proof. vm_compute. split; reflexivity. Qed.
+
 (* ---------- checker ---------- *)
 
 Lemma check_C16_sound : forall path target out,
